@@ -99,7 +99,7 @@ fn run(id: usize, sched: &[String], rng: &mut StdRng) -> J {
                 let payload = json!({"i": fed, "junk": junk});
                 payloads.push(payload.clone());
                 let resp = Response::new(Value::from_json(payload).unwrap());
-                if let Some(tx) = &tx { tx.unbounded_send(resp).unwrap(); }
+                if let Some(tx) = &tx { let _ = tx.unbounded_send(resp); /* a stream that ended early shows as a missing part */ }
                 events.push(json!({"ev": "feed", "i": fed}));
             }
             // an errors-only response (data null) is a response like any other: one part, the stream goes on
@@ -107,7 +107,7 @@ fn run(id: usize, sched: &[String], rng: &mut StdRng) -> J {
                 fed += 1;
                 payloads.push(json!({"err": format!("E{fed}")}));
                 let resp = Response::from_errors(vec![ServerError::new(format!("E{fed}"), None)]);
-                if let Some(tx) = &tx { tx.unbounded_send(resp).unwrap(); }
+                if let Some(tx) = &tx { let _ = tx.unbounded_send(resp); /* a stream that ended early shows as a missing part */ }
                 events.push(json!({"ev": "feed", "i": fed}));
             }
             "end" => { tx = None; events.push(json!({"ev": "end", "i": 0})); }
